@@ -298,6 +298,24 @@ static void do_case(void) {
         if (!dead[sid]) inject(sid, d, 4);
         break;
       }
+      case 'B': {          /* a malformed answer with the id of one of our messages:
+                              B<sid>,<mid>,<kind>  1 = ACK with a code of an invalid class (1.00),
+                              2 = ACK carrying a request code (0.01), 3 = ACK with code 0.00 but a
+                              token, 4 = NON with an invalid class (the peer's own id space) */
+        int kind = 1;
+        sscanf(comma + 1, "%d,%d", &a, &kind);
+        uint8_t d1[4] = {0x60, 0x20, (uint8_t)(a >> 8), (uint8_t)a};
+        uint8_t d2[4] = {0x60, 0x01, (uint8_t)(a >> 8), (uint8_t)a};
+        uint8_t d3[6] = {0x62, 0x00, (uint8_t)(a >> 8), (uint8_t)a, 0x12, 0x34};
+        uint8_t d4[4] = {0x50, 0x20, (uint8_t)(a >> 8), (uint8_t)a};
+        if (!dead[sid]) {
+          if (kind == 1) inject(sid, d1, 4);
+          else if (kind == 2) inject(sid, d2, 4);
+          else if (kind == 3) inject(sid, d3, 6);
+          else inject(sid, d4, 4);
+        }
+        break;
+      }
       case 'P': {
         unsigned pm = 0;
         a = 0;
